@@ -48,6 +48,8 @@ def Stmt.size : Stmt → Nat
   | .switch cs => cs.size
   | .ret _ => 1
   | .call _ _ _ => 1
+  | .brkL _ => 1
+  | .contL _ => 1
 def Clauses.size : Clauses → Nat
   | .nil => 1
   | .cons c body _ rest => c.size + body.size + rest.size
@@ -66,39 +68,49 @@ def compileCond : BExpr → (base t f : Nat) → List Instr
   | .land a b, base, t, f => compileCond a base (base + a.size) f ++ compileCond b (base + a.size) t f
   | .lor a b, base, t, f => compileCond a base t (base + a.size) ++ compileCond b (base + a.size) t f
 
+/-- target of `break L` / `continue L` for the n-th enclosing loop; a label outside every loop
+    (not valid Go) jumps to `dflt`, the fall-off end of the function -/
+def labelBrk (ls : List (Nat × Nat)) (n dflt : Nat) : Nat := match ls[n]? with | some t => t.1 | none => dflt
+def labelCont (ls : List (Nat × Nat)) (n dflt : Nat) : Nat := match ls[n]? with | some t => t.2 | none => dflt
+
 mutual
 /-- statement placed at `base`; `next` = where control goes when it ends normally,
-    `brk` / `cont` = targets of break / continue; `ent g` = address of the graph of function `g` -/
-def compile (ent : Nat → Nat) : Stmt → (base next brk cont : Nat) → List Instr
+    `brk` / `cont` = targets of break / continue; `ls` = (break, continue) targets of the enclosing
+    loops, innermost first, for labelled break / continue (cfg.go: `n.sym.node` of the label);
+    `fin` = fall-off end of the enclosing function; `ent g` = address of the graph of function `g` -/
+def compile (ent : Nat → Nat) (fin : Nat) (ls : List (Nat × Nat)) : Stmt → (base next brk cont : Nat) → List Instr
   | .skip, _, next, _, _ => [.nop next]
   | .seq a b, base, next, brk, cont =>
-    compile ent a base (base + a.size) brk cont ++ compile ent b (base + a.size) next brk cont
+    compile ent fin ls a base (base + a.size) brk cont ++ compile ent fin ls b (base + a.size) next brk cont
   | .assign x e, _, next, _, _ => [.assign x e next]
   | .print e, _, next, _, _ => [.print e next]
   | .ite c t e, base, next, brk, cont =>
     compileCond c base (base + c.size) (base + c.size + t.size) ++
-    compile ent t (base + c.size) next brk cont ++
-    compile ent e (base + c.size + t.size) next brk cont
+    compile ent fin ls t (base + c.size) next brk cont ++
+    compile ent fin ls e (base + c.size + t.size) next brk cont
   | .loop c body post, base, next, _, _ =>
     compileCond c base (base + c.size) next ++
-    compile ent body (base + c.size) (base + c.size + body.size) next (base + c.size + body.size) ++
-    compile ent post (base + c.size + body.size) base next (base + c.size + body.size)
+    compile ent fin ((next, base + c.size + body.size) :: ls) body (base + c.size)
+      (base + c.size + body.size) next (base + c.size + body.size) ++
+    compile ent fin ls post (base + c.size + body.size) base next (base + c.size + body.size)
   | .brk, _, _, brk, _ => [.nop brk]
   | .cont, _, _, _, cont => [.nop cont]
-  | .switch cs, base, next, _, cont => compileClauses ent cs base next cont
+  | .switch cs, base, next, _, cont => compileClauses ent fin ls cs base next cont
   | .ret e, _, _, _, _ => [.ret e]
   | .call x g args, _, next, _, _ => [.call x (ent g) args next]
+  | .brkL n, _, _, _, _ => [.nop (labelBrk ls n fin)]
+  | .contL n, _, _, _, _ => [.nop (labelCont ls n fin)]
 
 /-- clause list placed at `base`: test, body, test, body, …, and a final jump to `next` taken when no
     clause matches. A failed test goes to the next test, a body ends at the exit of the switch or —
     after `fallthrough` — at the start of the next body; `break` inside a body leaves the switch. -/
-def compileClauses (ent : Nat → Nat) : Clauses → (base next cont : Nat) → List Instr
+def compileClauses (ent : Nat → Nat) (fin : Nat) (ls : List (Nat × Nat)) : Clauses → (base next cont : Nat) → List Instr
   | .nil, _, next, _ => [.nop next]
   | .cons c body fall rest, base, next, cont =>
     compileCond c base (base + c.size) (base + c.size + body.size) ++
-    compile ent body (base + c.size)
+    compile ent fin ls body (base + c.size)
       (if fall then rest.bodyStart (base + c.size + body.size) else next) next cont ++
-    compileClauses ent rest (base + c.size + body.size) next cont
+    compileClauses ent fin ls rest (base + c.size + body.size) next cont
 end
 
 /-- a suspended caller: where to resume, its variables, and the variable that receives the result -/
@@ -156,7 +168,7 @@ def steps (code : List Instr) : Nat → MState → Option MState
 /-- code of one function: its body followed by `return 0` (reached only by bodies that fall off
     their end, which valid Go does not have) -/
 def compileFn (ent : Nat → Nat) (body : Stmt) (base : Nat) : List Instr :=
-  compile ent body base (base + body.size) (base + body.size) (base + body.size) ++ [.ret (.lit 0)]
+  compile ent (base + body.size) [] body base (base + body.size) (base + body.size) (base + body.size) ++ [.ret (.lit 0)]
 
 /-- offset of function `g` inside the block of function graphs -/
 def offset : Funs → Nat → Nat
